@@ -1033,24 +1033,24 @@ func main() {
 		samples = []string{"(no preemptive schedule)"}
 	}
 	cov := map[string]interface{}{
-		"evaluations":           schedules + auditRuns,
-		"distinct_nontrivial":   preemptive + auditLocked,
-		"rule":                  "every schedule with at most the preemption bound (a schedule point before every lock / rwlock announce / select / invocation / response) of each 2-3 thread scenario on colliding keys; oracle: brute-force linearizability against the reference keyspace incl. the final dump, structural invariants, conservation, deadlock, panic. Non-trivial = schedules with >= 1 preemption (+ audited commands that took a lock). Separate free-running -race pass over the same bodies",
-		"samples":               samples,
-		"exhaustive":            truncated == 0 && handleNotRun == 0,
+		"evaluations":                        schedules + auditRuns,
+		"distinct_nontrivial":                preemptive + auditLocked,
+		"rule":                               "every schedule with at most the preemption bound (a schedule point before every lock / rwlock announce / select / invocation / response) of each 2-3 thread scenario on colliding keys; oracle: brute-force linearizability against the reference keyspace incl. the final dump, structural invariants, conservation, deadlock, panic. Non-trivial = schedules with >= 1 preemption (+ audited commands that took a lock). Separate free-running -race pass over the same bodies",
+		"samples":                            samples,
+		"exhaustive":                         truncated == 0 && handleNotRun == 0,
 		"connection_level_scenarios_not_run": map[string]interface{}{"count": handleNotRun, "why": rt.ChanOpsNote},
-		"scenarios":             scen,
-		"scenarios_truncated":   truncated,
-		"preemption_bound":      bound,
-		"per_scenario":          perScenario,
-		"non_colliding":         nonColliding,
-		"generated_pairs":       map[string]interface{}{"scenarios": genScen, "schedules": genSched, "with_more_than_one_outcome": genColliding, "truncated": genTruncated, "rule": genRule(prop)},
-		"lock_audit_runs":       auditRuns,
-		"lock_audit_with_locks": auditLocked,
-		"race_pass_ran":         raceRan,
-		"race_pass_runs":        raceRuns,
-		"race_reports":          raceReports,
-		"race_pass_hangs":       raceHangs,
+		"scenarios":                          scen,
+		"scenarios_truncated":                truncated,
+		"preemption_bound":                   bound,
+		"per_scenario":                       perScenario,
+		"non_colliding":                      nonColliding,
+		"generated_pairs":                    map[string]interface{}{"scenarios": genScen, "schedules": genSched, "with_more_than_one_outcome": genColliding, "truncated": genTruncated, "rule": genRule(prop)},
+		"lock_audit_runs":                    auditRuns,
+		"lock_audit_with_locks":              auditLocked,
+		"race_pass_ran":                      raceRan,
+		"race_pass_runs":                     raceRuns,
+		"race_reports":                       raceReports,
+		"race_pass_hangs":                    raceHangs,
 	}
 	for _, v := range nondet {
 		fmt.Fprintln(os.Stderr, "HARNESS-ERROR:", v)
